@@ -321,7 +321,12 @@ impl PhoneticSuggestion {
     ) {
         // Build the Regex string.
         self.regex_parser.convert_regex_into(word, &mut self.regex);
-        let rgx = Regex::new(&self.regex).unwrap();
+        let rgx = match Regex::new(&self.regex) {
+            Ok(rgx) => rgx,
+            // The pattern of an overly long word exceeds the size limit of the regex engine,
+            // no dictionary word is that long anyway.
+            Err(_) => return,
+        };
 
         suggestions.extend(
             self.table
